@@ -14,7 +14,9 @@ CFG = {
                   "(two agents) each deliver/dup of a hub datagram hands the payload to the owner's reader exactly once iff the owner "
                   "knows a remote candidate at the NAT-mapped source on that transport, drop/blocked/unowned change no agent. "
                   "The model is tied to the Go code by differential correspondence (component agent).",
-    "level_note": "Payloads are modelled by their length plus a stunLike flag (stun.IsMessage: length >= 20 and magic cookie at bytes "
+    "level_note": "T tie for candidateBase.handleInboundPacket (regenerated in effect mode: STUN path without cache probe, unknown "
+                  "source dropped, the pair credited only after a successful buf.Write with the bytes queued; C07_code_handleInboundPacket). "
+                  "Payloads are modelled by their length plus a stunLike flag (stun.IsMessage: length >= 20 and magic cookie at bytes "
                   "4..8); the model never touches payload contents, so 'arrives unmodified' holds BY CONSTRUCTION of the model and is "
                   "covered for the code only by the correspondence run (the harness compares lengths, not bytes). packetio.Buffer is "
                   "modelled as a FIFO of lengths with the real bound (1 000 000 bytes, 2 per datagram included: a payload that does not "
@@ -30,7 +32,7 @@ CFG = {
             "0..8000 bytes with/without STUN-like prefix, injected data from known/unknown/other-transport sources, reads, restart, "
             "close; reads mostly into a receiveMTU buffer, a minority into buffers of exactly / one less than / half a recent "
             "datagram's size, 1, 0 and 65536 bytes; up to 6 receive-buffer floods per run — payloads just below / at / above the 1 MB bound with a stalled reader, in one go or with reads in between, then drained; corpus/C07/agent.ops is replayed first); thorough: larger budget. Distinct = distinct (operation, output) lines; non-trivial = not bad-op / ended.",
-    "translated": [],
+    "translated": ["candidateBase.handleInboundPacket"],
     "trusted_base": ["packetio.Buffer (bounded FIFO of byte slices) is modelled as a FIFO of lengths with the same byte bound",
                      "payload bytes are not modelled: byte identity of delivered payloads is by construction of the model",
                      "stun.IsMessage is modelled by the stunLike flag carried by the event"],
